@@ -815,6 +815,17 @@ func WalkFindBlind(pj *simdjson.ParsedJson) error {
 				look = append(look, names[len(names)-1], names[len(names)/2])
 			}
 			look = append(look, recent...)
+			// Object.Parse into one Elements value kept for the whole walk, then Lookup of the same names
+			if depth < 64 {
+				if els, err := obj.Parse(blindElems); err == nil && els != nil {
+					blindElems = els
+					for _, k := range look {
+						if e := els.Lookup(string(k)); e != nil {
+							_ = e.Type
+						}
+					}
+				}
+			}
 			for _, k := range look {
 				if r := obj.FindKey(string(k), &el); r != nil && depth < 3 {
 					r.Iter.Interface() // (bounded: converting the subtree at every level of a deep chain is quadratic)
@@ -885,6 +896,7 @@ func WalkFindBlind(pj *simdjson.ParsedJson) error {
 
 // blindDsts are WalkFindBlind's own per-depth destinations (always reused).
 var blindDsts = &walkDstCache{reuse: true}
+var blindElems *simdjson.Elements // nil until Object.Parse has returned one (a zero value is not a valid destination)
 
 // ---- W-marshal ----------------------------------------------------------------------------
 
